@@ -13,6 +13,8 @@
 """
 import itertools
 import re
+
+from ..poly import parse_poly
 from fractions import Fraction as F
 
 from ..common import exc_name, analyse_program_goals, build_model
@@ -41,6 +43,8 @@ SEEDS = [
     # simultaneous assignment of textually identical random right-hand sides (independent draws), next to a sequential reading
     "a = 0\nb = 0\ns = 0\nwhile true:\n    a, b = 1 {1/2} 0, 1 {1/2} 0\n    s = s + a*b\nend\n",
     "a = 0\nb = 0\ns = 0\nwhile true:\n    a, b = Bernoulli(1/2), Bernoulli(1/2)\n    s, a = s + a*b, s\nend\n",
+    # fractions in divisor / power-base / probability positions
+    "u = 1\nx = 0\nwhile true:\n    x = x + u/(1/4) {(9/10)**2} x - 1/(5/2)\n    u = 2*u/(1/2) {1/(5/2)} u*(3/4)**2\nend\n",
     # an elif chain without else whose first branch is one plain inner if
     "c = 0\nd = 0\nx = 0\ny = 0\nwhile true:\n    c = Bernoulli(1/2)\n    d = Bernoulli(1/2)\n    if c == 1:\n        if d == 1:\n            x = x + 1\n        end\n    elif d == 0:\n        y = y + 2\n    end\nend\n",
 ]
@@ -105,12 +109,18 @@ def rewrites(text):
     for frac, dec in (("1/2", "0.5"), ("1/4", "0.25"), ("1/2", ".5"), ("1/4", "2.5e-1")):
         for mt in re.finditer(re.escape(frac), text):
             out.append(("decimal@%d" % mt.start(), text[:mt.start()] + dec + text[mt.end():]))
+    # a parenthesised fraction <-> the bare decimal literal (a literal is atomic: divisors, power bases, probabilities)
+    for frac, dec in (("(1/4)", "0.25"), ("(9/10)", "0.9"), ("(5/2)", "2.5"), ("(1/2)", "0.5"), ("(3/4)", ".75")):
+        for mt in re.finditer(re.escape(frac), text):
+            if mt.start() > 0 and re.match(r"[A-Za-z0-9_]", text[mt.start() - 1]):
+                continue  # the parentheses of a call, not a bracketed number
+            out.append(("bare-decimal@%d" % mt.start(), text[:mt.start()] + dec + text[mt.end():]))
     # explicit last probability
     for i, l in enumerate(lines):
         probs = re.findall(r"\{([^}]*)\}", l)
         if probs and not l.rstrip().endswith("}"):
             rest = "1 - " + " - ".join("(%s)" % p for p in probs)
-            vals = F(1) - sum(F(p) for p in probs)
+            vals = F(1) - sum(parse_poly(p).const_value() for p in probs)
             for spelled in (rest, str(vals)):
                 out.append(("explicit-last@%d" % i, "\n".join(lines[:i] + [l + " {%s}" % spelled] + lines[i + 1:]) + "\n"))
     # simultaneous <-> temporaries
